@@ -102,6 +102,10 @@ func Exp(ctx *expr.Context, input system.Collection, args ...expr.Expression) (s
 	}
 	// Exp number
 	res := math.Pow(math.E, number)
+	// A result that overflows float64 is not representable: empty.
+	if math.IsNaN(res) || math.IsInf(res, 0) {
+		return system.Collection{}, nil
+	}
 	result := system.MustParseDecimal(fmt.Sprintf("%v", res))
 	return system.Collection{result}, nil
 }
@@ -145,7 +149,7 @@ func Ln(ctx *expr.Context, input system.Collection, args ...expr.Expression) (sy
 	}
 	res := math.Log(number)
 	// Validating NaN case
-	if math.IsNaN(res) {
+	if math.IsNaN(res) || math.IsInf(res, 0) {
 		return system.Collection{}, nil
 	}
 	// Type conversion to system.Decimal
@@ -180,7 +184,7 @@ func Log(ctx *expr.Context, input system.Collection, args ...expr.Expression) (s
 	// Log number to base
 	res := logToBase(number, base)
 	// Validating NaN case
-	if math.IsNaN(res) {
+	if math.IsNaN(res) || math.IsInf(res, 0) {
 		return system.Collection{}, nil
 	}
 	// Type conversion to system.Decimal
@@ -234,7 +238,7 @@ func Power(ctx *expr.Context, input system.Collection, args ...expr.Expression) 
 	// Powering number
 	res := math.Pow(number, exp)
 	// Validating NaN case
-	if math.IsNaN(res) {
+	if math.IsNaN(res) || math.IsInf(res, 0) {
 		return system.Collection{}, nil
 	}
 	// Type conversion to system.Decimal
